@@ -30,14 +30,14 @@ func TestVerifC07(t *testing.T) {
 		ID: "C07", Level: "fault_enumeration",
 		Rule:        "8 base sessions x {Server, RequestServer} x allocator {off,on} x transport {close-both, keep-input-after-Close}; mutations of request j: stream EOF at a byte offset inside it (quick: first/last 2 offsets + seeded 15%; thorough: every offset), well-framed truncation of the body at every offset the reference decoder rejects, every 4-byte window that is a string-length field replaced by {n+1, 2^20, 2^31-1, 2^32-1}, zero-length and oversized frames, every unknown/response type byte (one request per session), plus 'ambiguous' mutations (garbage inside the frame, random byte flips) judged by the robustness oracles only. A class is (session, config, request index, mutation kind).",
 		Assumptions: []string{"a mutation is 'definitely malformed' only if the independent reference decoder rejects it (or it is a framing violation / non-request type)", "sessions are sequential (determinate), so the two runs are comparable", "race detector on"},
-		Units:       func(tier vfTier, seed uint64) int { return 8 * 4 * 2 },
+		Units:       func(tier vfTier, seed uint64) int { return 8*4*2 + 16 },
 		Shards: func(tier vfTier) int {
 			if tier == vfThorough {
 				return 16
 			}
 			return 12
 		},
-		Floors: map[string]int64{"mutated_streams": 1500, "definitely_malformed": 1000, "mutation_kinds": 6, "sessions": 8},
+		Floors: map[string]int64{"mutated_streams": 1500, "definitely_malformed": 1000, "mutation_kinds": 7, "sessions": 8, "bursts_ending_with_requests_in_flight": 50},
 		Run:    c07Run,
 	})
 }
@@ -117,7 +117,7 @@ func c07Sessions(e *c07Env) [][]vfPkt {
 			{Type: rfClose, ID: n(), Handle: "1"},
 		},
 		{ // 1: directories
-			{Type: rfMkdir, ID: n(), Path: e.p("nd"), Attrs: vfAttrs{}},
+			{Type: rfMkdir, ID: n(), Path: e.p("nd"), Attrs: vfAttrs{Flags: rfAttrPerm | rfAttrTime, Perm: 0o40700, Atime: 5, Mtime: 6}},
 			{Type: rfOpendir, ID: n(), Path: e.p("d")},
 			{Type: rfReaddir, ID: n(), Handle: "1"},
 			{Type: rfReaddir, ID: n(), Handle: "1"},
@@ -151,7 +151,7 @@ func c07Sessions(e *c07Env) [][]vfPkt {
 			{Type: rfClose, ID: n(), Handle: "1"},
 		},
 		{ // 6: truncate, write, fsetstat
-			{Type: rfOpen, ID: n(), Path: e.p("a"), Pflags: rfWrite_ | rfTrunc_},
+			{Type: rfOpen, ID: n(), Path: e.p("a"), Pflags: rfWrite_ | rfTrunc_, Attrs: vfAttrs{Flags: rfAttrSize | rfAttrTime, Size: 0, Atime: 7, Mtime: 8}},
 			{Type: rfWrite, ID: n(), Handle: "1", Off: 0, Data: vfPattern(7, 0, 300)},
 			{Type: rfFsetstat, ID: n(), Handle: "1", Attrs: vfAttrs{Flags: rfAttrSize, Size: 100}},
 			{Type: rfClose, ID: n(), Handle: "1"},
@@ -159,9 +159,9 @@ func c07Sessions(e *c07Env) [][]vfPkt {
 		},
 		{ // 7: handles left open at the end (the end-of-Serve sweep must release them)
 			{Type: rfOpen, ID: n(), Path: e.p("a"), Pflags: rfRead_},
-			{Type: rfOpen, ID: n(), Path: e.p("b"), Pflags: rfRead_ | rfWrite_},
+			{Type: rfOpen, ID: n(), Path: e.p("b"), Pflags: rfRead_ | rfWrite_, Attrs: vfAttrs{Flags: rfAttrUIDGID, UID: 0, GID: 0}},
 			{Type: rfOpendir, ID: n(), Path: e.p("d")},
-			{Type: rfOpen, ID: n(), Path: e.p("w2"), Pflags: rfWrite_ | rfCreat_},
+			{Type: rfOpen, ID: n(), Path: e.p("w2"), Pflags: rfWrite_ | rfCreat_, Attrs: vfAttrs{Flags: rfAttrExt, Ext: [][2]string{{"k@example.com", "v"}, {"k2@example.com", "vv"}}}},
 			{Type: rfWrite, ID: n(), Handle: "4", Off: 0, Data: []byte("left open")},
 			{Type: rfRead, ID: n(), Handle: "1", Off: 0, Len: 10},
 		},
@@ -349,7 +349,82 @@ func c07Reference(u *vfUnit, e *c07Env, sess []vfPkt, label string) (*c07Ref, bo
 	return ref, true
 }
 
+// c07Burst: many pipelined reads/writes are still in flight when the stream ends (EOF) or turns
+// malformed; Serve must still return, release everything, and every well-formed write must have been applied.
+func c07Burst(u *vfUnit, idx int) {
+	cfgi := idx % 8
+	tail := []string{"eof", "garbage"}[idx/8]
+	e := &c07Env{kind: vfKind(cfgi % 2), alloc: (cfgi/2)%2 == 1, keepRead: cfgi/4 == 1}
+	if e.kind == vfOS {
+		e.dir = filepath.Join(u.TempDir(), "srv")
+	}
+	for round := 0; round < 6; round++ {
+		nrw := []int{9, 17, 40, 64, 100, 33}[round]
+		label := fmt.Sprintf("burst/%v/alloc=%v/keepRead=%v/n=%d/tail=%s", e.kind, e.alloc, e.keepRead, nrw, tail)
+		if !u.Case(round, fmt.Sprintf("%s:burst:%s", e.kind, tail), "%s", label) {
+			continue
+		}
+		u.Eval(label)
+		u.Count("mutated_streams", 1)
+		u.Count("bursts_ending_with_requests_in_flight", 1)
+		u.SetAdd("mutation_kinds", "burst-then-"+tail)
+		e.reset()
+		base := vfGoBaseline()
+		rs, err := c07Connect(e)
+		if err != nil {
+			u.Inconclusive("connect: %v", err)
+			return
+		}
+		r, err := rs.R.Phase(120*time.Second, vfPkt{Type: rfOpen, ID: 1, Path: e.p("burst"), Pflags: rfRead_ | rfWrite_ | rfCreat_})
+		if err != nil || len(r) != 1 || r[0].Type != rfHandle {
+			u.Violation("burst-open:"+e.kind.String(), fmt.Sprintf("%s: %v %v", label, r, err), nil)
+			rs.End(60 * time.Second)
+			continue
+		}
+		var stream, want []byte
+		const chunk = 500
+		for i := 0; i < nrw; i++ {
+			d := vfPattern(uint64(40+round), int64(i*chunk), chunk)
+			want = append(want, d...)
+			stream = append(stream, vfPkt{Type: rfWrite, ID: uint32(10 + i), Handle: r[0].Handle, Off: uint64(i * chunk), Data: d}.Frame()...)
+			if i%5 == 4 {
+				stream = append(stream, vfPkt{Type: rfRead, ID: uint32(5000 + i), Handle: r[0].Handle, Off: 0, Len: 100}.Frame()...)
+			}
+		}
+		if tail == "garbage" {
+			stream = append(stream, vfFrame([]byte{99, 0, 0, 0, 1, 2, 3})...)
+			stream = append(stream, vfPkt{Type: rfMkdir, ID: 0xCAFE, Path: e.p("CANARY")}.Frame()...)
+		}
+		w := map[string]any{"config": label}
+		rs.R.Send(stream)
+		if msg := rs.End(120 * time.Second); msg != "" {
+			u.Violation("serve-does-not-return:"+e.kind.String()+":burst-then-"+tail, label+": "+msg, w)
+			continue
+		}
+		c07After(u, e, base, label, w)
+		var got []byte
+		if e.kind == vfOS {
+			got, _ = os.ReadFile(e.p("burst"))
+			if _, err := os.Lstat(e.p("CANARY")); err == nil {
+				u.Violation("malformed-packet-acted-upon:"+e.kind.String()+":burst", label+": the request behind the malformed packet was executed", w)
+			}
+		} else {
+			got, _ = e.store.Get(e.p("burst"))
+			if _, ok := e.store.Get("/CANARY"); ok {
+				u.Violation("malformed-packet-acted-upon:"+e.kind.String()+":burst", label+": the request behind the malformed packet was executed", w)
+			}
+		}
+		if !bytes.Equal(got, want) {
+			u.Violation("well-formed-writes-lost:"+e.kind.String()+":burst-then-"+tail, fmt.Sprintf("%s: the file has %d bytes, %d were written by well-formed requests that preceded the end of the stream (first difference at %d)", label, len(got), len(want), vfFirstDiff(got, want)), w)
+		}
+	}
+}
+
 func c07Run(u *vfUnit) {
+	if u.Index >= 64 {
+		c07Burst(u, u.Index-64)
+		return
+	}
 	si := u.Index % 8
 	cfgi := (u.Index / 8) % 4
 	e := &c07Env{kind: vfKind(cfgi % 2), alloc: cfgi/2 == 1, keepRead: u.Index/32 == 1}
